@@ -42,6 +42,12 @@ NEEDS = {
  "c12-j": ("three harmless-looking shortcuts: return `m` when labels are final, return `m` when sorted, shift labels to 1-based in place", "a molecule whose atoms are all inequivalent and already sorted (He, HCl, ...): serialize renames the caller's atoms"),
  "c16-i": ("as c16-b (independent rediscovery, frozenset of oriented edges)", "as c16-b"),
  "c16-j": ("private `random.Random(seed)` for the first shuffle only; retries still use the global generator", "a retry (small symmetric molecule) and a different global RNG state"),
+ "c14-u": ("writer emits an atom's CHG/RAD/MASS tokens while iterating a set intersection of keys", "an atom with two or more of charge, radical, isotope; written bodies compared across hash seeds"),
+ "c14-v": ("V3000 continuation-line splicer as one module-level object with per-call state in attributes", "two threads reading V3000 molfiles at once, switch inside the splice loop"),
+ "c14-w": ("canonicalization cache stored on second encounter, key lacks the radical", "two molecules differing only in radical position, processed A,B,A or A,A,B"),
+ "c12-k": ("canonical graph assembled by hand: bonds without attributes keep a placeholder dict shared by all bonds of an atom", "canonicalize a parsed graph (bonds carry no attributes), then write one bond's attribute in the result"),
+ "c12-l": ("serializer removes self-loop edges from the graph it is given", "an input with a bond whose two atom indices are equal; caller keeps the graph"),
+ "c16-k": ("as c16-c (independent rediscovery)", "as c16-c"),
 }
 print("| seeded change | what it does | needs in order to manifest | tests / demo | reported by (quick tier, VERIF_SEED=1) |")
 print("|---|---|---|---|---|")
